@@ -50,11 +50,11 @@ type SchedSpec struct {
 
 // PoolSpec describes the simulated buffer pool of a C13 run.
 type PoolSpec struct {
-	Get     string    `json:"get"` // lifo | fifo | random | fresh
-	Seed    uint64    `json:"seed"`
-	Prefill []PreBuf  `json:"prefill,omitempty"`
-	NewCaps []int     `json:"new_caps,omitempty"` // capacities for newly created buffers, cycled
-	Prior   []TaskSpec `json:"prior,omitempty"`   // instances run to completion before the interleaved phase
+	Get     string     `json:"get"` // lifo | fifo | random | fresh
+	Seed    uint64     `json:"seed"`
+	Prefill []PreBuf   `json:"prefill,omitempty"`
+	NewCaps []int      `json:"new_caps,omitempty"` // capacities for newly created buffers, cycled
+	Prior   []TaskSpec `json:"prior,omitempty"`    // instances run to completion before the interleaved phase
 }
 
 // PreBuf is a buffer placed in the pool before the run.
@@ -92,6 +92,17 @@ type ReplayFile struct {
 	Tier      string `json:"tier"`
 	Shrunk    string `json:"minimisation"`
 	Case      *Case  `json:"case"`
+	// RaceMonitor is set for findings of the supplementary race-detector
+	// monitor of C13 (not deterministic; replay re-runs the monitor).
+	RaceMonitor *RaceSpec `json:"race_monitor,omitempty"`
+}
+
+// RaceSpec is the configuration of one race-monitor run.
+type RaceSpec struct {
+	Seed       uint64 `json:"seed"`
+	Goroutines int    `json:"goroutines"`
+	Rounds     int    `json:"rounds"`
+	Per        int    `json:"per"`
 }
 
 func (c *Case) Clone() *Case {
@@ -123,7 +134,7 @@ func LoadReplay(path string) (*ReplayFile, error) {
 	if err := json.Unmarshal(b, &rf); err != nil {
 		return nil, err
 	}
-	if rf.Case == nil {
+	if rf.Case == nil && rf.RaceMonitor == nil {
 		return nil, fmt.Errorf("%s: no case", path)
 	}
 	return &rf, nil
@@ -142,8 +153,8 @@ func (o *Op) Val(sh *Shape) interface{} {
 }
 
 func AddOp(rec interface{}) Op { return Op{K: "add", Rec: RecJSON(rec), val: rec} }
-func WriteOp() Op             { return Op{K: "write"} }
-func CloseOp() Op             { return Op{K: "close"} }
+func WriteOp() Op              { return Op{K: "write"} }
+func CloseOp() Op              { return Op{K: "close"} }
 
 // HistoryString is the canonical compact form A^n W ... C of a history.
 func (w *WriterSpec) HistoryString() string {
